@@ -23,7 +23,7 @@
  *   xml <path>                                                        (Engine::load_platform)
  *   seal <zone>        sealall (= seal the root; implied before the first query)
  *   links                                                             (dump every link: "LK name latency zone"; later routes are printed as indices into that list)
- *   q <src> <dst>      qall [prefix] [desc]  (all ordered pairs, src==dst included, of hosts whose name starts with prefix,
+ *   q <src> <dst>      qall [prefix] [desc] [noself]  (all ordered pairs, src==dst included, of hosts whose name starts with prefix,
  *                      sources and destinations in ascending (descending) name order; printed compactly as
  *                      "QA prefix n name..." followed by n*n lines "p latency link..." / "x message" in row-major order)
  *   END
@@ -127,6 +127,7 @@ struct Builder {
   std::map<std::string, sg4::Link*> links;              // plain links
   std::map<std::string, sg4::SplitDuplexLink*> sdlinks; // split-duplex links
   bool sealed = false;
+  std::vector<std::string> host_names; // sorted, filled by the first qall
   std::map<const sg4::Link*, int> link_index; // filled by the "links" directive; routes are then printed as indices
 
   NetPoint* np(const std::string& n)
@@ -423,12 +424,21 @@ struct Builder {
     } else if (d == "qall") {
       sealall();
       std::string prefix = t.size() > 1 ? t[1] : "";
-      bool desc          = t.size() > 2 && t[2] == "desc";
+      bool desc          = false;
+      bool noself        = false; // self pairs are answered "p 0" without asking SimGrid
+      for (size_t i = 2; i < t.size(); i++) {
+        desc   = desc || t[i] == "desc";
+        noself = noself || t[i] == "noself";
+      }
+      if (host_names.empty()) { // Engine::get_all_hosts() sorts all hosts at every call: ask once
+        for (auto const* h : e->get_all_hosts())
+          host_names.push_back(h->get_name());
+        std::sort(host_names.begin(), host_names.end());
+      }
       std::vector<std::string> names;
-      for (auto const* h : e->get_all_hosts())
-        if (h->get_name().compare(0, prefix.size(), prefix) == 0)
-          names.push_back(h->get_name());
-      std::sort(names.begin(), names.end());
+      for (auto it = std::lower_bound(host_names.begin(), host_names.end(), prefix);
+           it != host_names.end() && it->compare(0, prefix.size(), prefix) == 0; ++it)
+        names.push_back(*it);
       if (desc)
         std::reverse(names.begin(), names.end());
       // compact form: one header, then one "p"/"x" line per ordered pair in row-major order of the header's names
@@ -440,8 +450,12 @@ struct Builder {
       for (auto const& s : names)
         hs.push_back(host(s));
       for (auto* s : hs)
-        for (auto* dd : hs)
-          query_compact(s, dd);
+        for (auto* dd : hs) {
+          if (noself && s == dd)
+            emit("p 0");
+          else
+            query_compact(s, dd);
+        }
     } else
       throw std::invalid_argument("routex: unknown directive " + d);
   }
